@@ -25,9 +25,9 @@ GUARD = 'XIAOYELI_SUPERLU_MT_VERIF'
 BASE_FLAGS = ['-DVH_CBMC', '-D__PTHREAD', '-DAdd_', '-D' + GUARD, '-I' + SRC, '-I' + HARN,
               '-DUSER_MALLOC(s)=malloc(s)', '-DUSER_FREE(p)=free(p)']
 NATIVE_FLAGS = ['-D__PTHREAD', '-DAdd_', '-D' + GUARD, '-I' + SRC, '-I' + HARN, '-w', '-g', '-O0']
-CBMC_SAT_FLAGS = ['--unwinding-assertions', '--pointer-overflow-check', '--signed-overflow-check',
+CBMC_SAT_FLAGS = ['--max-field-sensitivity-array-size', '4096', '--unwinding-assertions', '--pointer-overflow-check', '--signed-overflow-check',
                   '--undefined-shift-check', '--drop-unused-functions', '--no-malloc-may-fail']
-CBMC_SMT_FLAGS = ['--unwinding-assertions', '--drop-unused-functions', '--no-malloc-may-fail',
+CBMC_SMT_FLAGS = ['--max-field-sensitivity-array-size', '4096', '--unwinding-assertions', '--drop-unused-functions', '--no-malloc-may-fail',
                   '--no-standard-checks', '--slice-formula']
 NCPU = int(os.environ.get('VERIF_JOBS', '0')) or os.cpu_count() or 4
 
@@ -89,6 +89,7 @@ class Query:
         self.native_srcs = native_srcs
         self.unwind_big = None
         self.instrument = None
+        self.witness_defs = None
 
 
 class Builder:
@@ -191,6 +192,14 @@ def _solver_cmd(path, solver):
         return [os.path.join(TOOLS, 'cvc5run.py'), path]
     if solver == 'cvc5old':
         return ['cvc5', path]
+    if solver == 'z3nl':
+        # z3 5.1 with equation solving before nlsat: decides the mostly-pinned larger shapes in a second
+        # where the default strategy needs minutes; on anything that is not pure arithmetic after
+        # simplification the tactic answers unknown/error, never a wrong verdict
+        alt = path + '.nl.smt2'
+        if not os.path.exists(alt):
+            open(alt, 'w').write(open(path).read().replace('(check-sat)', '(check-sat-using (then simplify propagate-values solve-eqs elim-uncnstr simplify propagate-values qfnra-nlsat))'))
+        return ['z3-new', alt]
     raise ValueError(solver)
 
 
@@ -216,7 +225,7 @@ def run_solver(path, solver, timeout, mem_gb=8):
     t0 = time.time()
 
     procs = {}
-    for sv in ('z3', 'z3old', 'cvc5old'):
+    for sv in ('z3', 'z3old', 'cvc5old', 'z3nl'):
         procs[sv] = subprocess.Popen(_wrap(_solver_cmd(path, sv), mem_gb), stdout=subprocess.PIPE, stderr=subprocess.PIPE, text=True,
                                      start_new_session=True, stdin=subprocess.DEVNULL)
     answers = {}
@@ -236,6 +245,11 @@ def run_solver(path, solver, timeout, mem_gb=8):
             p.kill()
         p.communicate()
     dt = time.time() - t0
+    if os.path.exists(path + '.nl.smt2'):
+        try:
+            os.unlink(path + '.nl.smt2')
+        except OSError:
+            pass
     definite = set(a for a in answers.values() if a in ('sat', 'unsat'))
     if len(definite) == 2:   # both 'sat' and 'unsat' were reported
         return 'error: solvers disagree ' + str(answers), dt
@@ -243,7 +257,7 @@ def run_solver(path, solver, timeout, mem_gb=8):
         return definite.pop(), dt
     if not answers:
         return 'timeout', dt
-    return list(answers.values())[0] if procs == {} and len(answers) == 3 else 'timeout', dt
+    return list(answers.values())[0] if procs == {} and len(answers) == 4 else 'timeout', dt
 
 
 class Runner:
@@ -261,7 +275,10 @@ class Runner:
         tag = re.sub(r'[^A-Za-z0-9_.-]', '_', q.name) + ('.wit' if witness else '')
         hobj = os.path.join(self.bdir, tag + '.h.gb')
         out = os.path.join(self.bdir, tag + '.gb')
-        fl = BASE_FLAGS + q.cflags + defs_flags(q.defs) + (['-DWITNESS'] if witness else [])
+        d = dict(q.defs)
+        if witness and getattr(q, 'witness_defs', None):
+            d.update(q.witness_defs)     # e.g. pin every value: reachability of the end needs only one satisfying assignment
+        fl = BASE_FLAGS + q.cflags + defs_flags(d) + (['-DWITNESS'] if witness else [])
         hd = os.path.join(HARN, q.harness)
         rc, o, e, _ = sh(['goto-cc', '-c'] + fl + [hd, '-o', hobj], timeout=300)
         if rc != 0:
